@@ -154,7 +154,8 @@ def run_shard(sh):
     for qi, (slice_, q) in enumerate(sp_['qs'][sh['lo']:sh['hi']]):
         if slice_ not in cache:
             cache[slice_] = tables_for(sp_, slice_, maxrows)
-        text = refql.render(q)
+        qi_ = sh['lo'] + qi
+        text = refql.render(q, 'py', refql.Spelling(paren_pad=' ')) if qi_ % 4 == 1 else (refql.render(q, 'py', refql.Spelling(paren_pad='\t  ')) if qi_ % 4 == 3 else refql.render(q))     # COUNT( * ), SUM( a1 ): blanks inside the call are legal
         for A in cache[slice_]:
             if any(r[2] in ('', ' ') for r in A) and any(it[0] == 'agg' and it[1] == 'SUM' and it[2] == 'l' for it in q['items']):
                 continue     # lower-case sum('') is Python's builtin over an empty iterable (0): "an iterable keeps its builtin meaning" - outside the aggregate clause
